@@ -1,5 +1,5 @@
 // KZG10 (kzg10/mod.rs): admission checks, commit, witness, open, check.
-//@use core ops_gen poly labeled
+//@use core ops_gen poly labeled std
 //@spec ring
 //@typemap /Cow<'a, \[E::G1Affine\]>/ => Vec<G1Affine>
 //@typemap /Randomness::<E::ScalarField, P>::/ => Randomness::
@@ -15,47 +15,7 @@
 //@struct file=poly-commit/src/kzg10/data_structures.rs name=Proof
 //@struct file=poly-commit/src/kzg10/data_structures.rs name=Randomness
 
-// ======================= specification (written from the KZG10 / Marlin papers) =======================
-// e(C - v*G - rv*gammaG, H) = e(W, beta*H - z*H)
-pub open spec fn kzg_lhs(vk: &VerifierKey, comm: &Commitment, value: Fr, proof: &Proof) -> FS {
-    let inner = f_sub(comm.0@, f_mul(vk.g@, value@));
-    match proof.random_v {
-        Some(rv) => f_sub(inner, f_mul(vk.gamma_g@, rv@)),
-        None => inner,
-    }
-}
-pub open spec fn kzg_relation(vk: &VerifierKey, comm: &Commitment, point: Fr, value: Fr, proof: &Proof) -> bool {
-    pair(kzg_lhs(vk, comm, value, proof), vk.h@) == pair(proof.w@, f_sub(vk.beta_h@, f_mul(vk.h@, point@)))
-}
-// commitment = sum_i p_i * powers_of_g[i]  +  sum_i r_i * powers_of_gamma_g[i]
-pub open spec fn commit_spec(powers: &Powers, p: Seq<FS>, blind: Seq<FS>) -> FS {
-    f_add(msm(powers.powers_of_g@, p, p.len()),
-          msm(powers.powers_of_gamma_g@, blind, min(powers.powers_of_gamma_g@.len(), blind.len())))
-}
-// ---- KZG10::batch_check: random linear combination of the single checks.
-//      r_0 = 1, r_i = (i-th 128-bit draw of the verifier's RNG);  n = number of complete (commitment, point, value, proof) tuples
-pub open spec fn vk_wf(vk: &VerifierKey) -> bool { vk.prepared_h@ == vk.h@ && vk.prepared_beta_h@ == vk.beta_h@ }
-pub open spec fn bc_len(cs: Seq<Commitment>, zs: Seq<Fr>, vs: Seq<Fr>, ps: Seq<Proof>) -> nat { min(min(min(cs.len(), zs.len()), vs.len()), ps.len()) }
-pub open spec fn bc_r(id: int, pos: nat, i: nat) -> FS { if i == 0 { f_one() } else { draw_u128(id, (pos + i - 1) as nat) } }
-pub open spec fn bc_total_c(cs: Seq<Commitment>, zs: Seq<Fr>, ps: Seq<Proof>, id: int, pos: nat, k: nat) -> FS decreases k {
-    if k == 0 { f_zero() } else { let i = (k - 1) as nat;
-        f_add(bc_total_c(cs, zs, ps, id, pos, i), f_mul(f_add(f_mul(ps[i as int].w@, zs[i as int]@), cs[i as int].0@), bc_r(id, pos, i))) }
-}
-pub open spec fn bc_total_w(ps: Seq<Proof>, id: int, pos: nat, k: nat) -> FS decreases k {
-    if k == 0 { f_zero() } else { let i = (k - 1) as nat; f_add(bc_total_w(ps, id, pos, i), f_mul(ps[i as int].w@, bc_r(id, pos, i))) }
-}
-pub open spec fn bc_g_mult(vs: Seq<Fr>, id: int, pos: nat, k: nat) -> FS decreases k {
-    if k == 0 { f_zero() } else { let i = (k - 1) as nat; f_add(bc_g_mult(vs, id, pos, i), f_mul(bc_r(id, pos, i), vs[i as int]@)) }
-}
-pub open spec fn bc_gamma_mult(ps: Seq<Proof>, id: int, pos: nat, k: nat) -> FS decreases k {
-    if k == 0 { f_zero() } else { let i = (k - 1) as nat;
-        match ps[i as int].random_v { Some(rv) => f_add(bc_gamma_mult(ps, id, pos, i), f_mul(bc_r(id, pos, i), rv@)), None => bc_gamma_mult(ps, id, pos, i) } }
-}
-// e(-sum r_i W_i, beta H) * e(sum r_i (C_i + z_i W_i) - (sum r_i v_i) G - (sum r_i rv_i) gamma G, H) == 1
-pub open spec fn kzg_batch_relation(vk: &VerifierKey, cs: Seq<Commitment>, zs: Seq<Fr>, vs: Seq<Fr>, ps: Seq<Proof>, id: int, pos: nat, n: nat) -> bool {
-    f_add(pair(f_neg(bc_total_w(ps, id, pos, n)), vk.beta_h@),
-          pair(f_sub(f_sub(bc_total_c(cs, zs, ps, id, pos, n), f_mul(vk.g@, bc_g_mult(vs, id, pos, n))), f_mul(vk.gamma_g@, bc_gamma_mult(ps, id, pos, n))), vk.h@)) == f_zero()
-}
+//@spec kzg10_check_spec kzg10_commit_spec
 impl Powers {
     // mirror of kzg10::Powers::size (a one-line getter)
     pub fn size(&self) -> (r: usize) ensures r == self.powers_of_g@.len() { self.powers_of_g.len() }
@@ -91,6 +51,8 @@ impl Randomness {
         r.blinding_polynomial.coeffs@.len() == hiding_bound + 2,   // name=kzg10.Randomness.rand.h_plus_2_coefficients props=C07
         r.blinding_polynomial.wf(),
         final(rng).id == old(rng).id,
+        final(rng).present == old(rng).present,
+        old(rng).present@,                                         // name=kzg10.Randomness.rand.absent_rng_aborts props=C07
         final(rng).pos@ == old(rng).pos@ + hiding_bound + 2,       // name=kzg10.Randomness.rand.draws_from_caller_stream props=C07
         forall|i: int| 0 <= i <= hiding_bound + 1 ==> (#[trigger] r.blinding_polynomial.coeffs@[i])@ == draw(old(rng).id@, old(rng).pos@ + i as nat),   // name=kzg10.Randomness.rand.fresh props=C07
 //@body
@@ -140,6 +102,18 @@ impl KZG10 {
 //@body
 //@end
 
+//@fn id=kzg10.check_degrees_and_bounds file=poly-commit/src/kzg10/mod.rs scope="impl<E, P> KZG10<E, P>" name=check_degrees_and_bounds props=C04,C17
+    pub fn check_degrees_and_bounds<'a>(supported_degree: usize, max_degree: usize, enforced_degree_bounds: Option<&[usize]>, p: &'a LabeledPolynomial) -> (res: Result<(), Error>)
+    requires
+        enforced_degree_bounds is Some ==> sorted_usize(enforced_degree_bounds->Some_0@),
+    ensures
+        (res is Ok) == (p.degree_bound is None || (enforced_degree_bounds is Some && enforced_degree_bounds->Some_0@.contains(p.degree_bound->Some_0)
+                        && p.polynomial.degree_spec() <= p.degree_bound->Some_0 && p.degree_bound->Some_0 <= max_degree)),   // name=kzg10.check_degrees_and_bounds.iff props=C04,C17
+//@body
+//@rw 1 /enforced_degree_bounds\.binary_search\(&bound\)/ => binary_search_usize(enforced_degree_bounds, &bound)
+//@rw 1 /p\.label\(\)\.to_string\(\)/ => string_to_string(p.label())
+//@end
+
 //@fn id=kzg10.commit file=poly-commit/src/kzg10/mod.rs scope="impl<E, P> KZG10<E, P>" name=commit props=C01,C07,C08,C17
     pub fn commit(powers: &Powers, polynomial: &Poly, hiding_bound: Option<usize>, rng: Option<&mut Rng>) -> (res: Result<(Commitment, Randomness), Error>)
     requires
@@ -163,6 +137,9 @@ impl KZG10 {
         (res is Ok && hiding_bound is Some) ==> (forall|i: int| 0 <= i <= hiding_bound->Some_0 + 1 ==> (#[trigger] res->Ok_0.1.blinding_polynomial.coeffs@[i])@ == draw(old(rng->Some_0).id@, old(rng->Some_0).pos@ + i as nat)),   // name=kzg10.commit.blinding_is_fresh_from_caller_rng props=C07
         (res is Ok && hiding_bound is Some) ==> final(rng->Some_0).pos@ == old(rng->Some_0).pos@ + hiding_bound->Some_0 + 2,   // name=kzg10.commit.rng_advanced props=C07
         res is Ok ==> res->Ok_0.1.blinding_polynomial.wf(),
+        (res is Ok && hiding_bound is Some) ==> old(rng->Some_0).present@,   // name=kzg10.commit.hiding_with_absent_wrapped_rng_aborts props=C07
+        rng is Some ==> (final(rng->Some_0).id == old(rng->Some_0).id && final(rng->Some_0).present == old(rng->Some_0).present),
+        (rng is Some && hiding_bound is Some) ==> final(rng->Some_0).pos@ >= old(rng->Some_0).pos@,
 //@body
 //@after /let mut commitment =/
         proof {
@@ -249,21 +226,6 @@ impl KZG10 {
 //@end
 }
 
-// what `open` returns: a commitment to quotient polynomials w, wr with
-//   p(x) = w(x)(x - z) + p(z),   r(x) = wr(x)(x - z) + r(z)   (wr only if the commitment is hiding)
-pub open spec fn open_spec(powers: &Powers, p: &Poly, point: Fr, rand: &Randomness, proof: Proof) -> bool {
-    exists|w: Poly, hw: Option<Poly>| #![trigger w.cv(), hw.is_some()]
-        (forall|x: FS| p.ev(x) == f_add(f_mul(#[trigger] w.ev(x), f_sub(x, point@)), p.ev(point@)))
-        && (hw is Some) == !rand.blinding_polynomial.is_zero_spec()
-        && (hw is Some ==> (forall|x: FS| rand.blinding_polynomial.ev(x) == f_add(f_mul(#[trigger] hw->Some_0.ev(x), f_sub(x, point@)), rand.blinding_polynomial.ev(point@))))
-        && proof.w@ == f_add(msm(powers.powers_of_g@, w.cv(), w.len()),
-              match hw { Some(h) => msm(powers.powers_of_gamma_g@, h.cv(), min(powers.powers_of_gamma_g@.len(), h.len())), None => f_zero() })
-        && (proof.random_v is Some) == (hw is Some)
-        && (hw is Some ==> proof.random_v->Some_0@ == rand.blinding_polynomial.ev(point@))
-        && w.len() <= powers.powers_of_g@.len()
-        && (hw is Some ==> hw->Some_0.len() + 1 <= rand.blinding_polynomial.len() || hw->Some_0.len() == 0)
-}
-
 //@fn id=kzg10.skip_leading_zeros_and_convert_to_bigints file=poly-commit/src/kzg10/mod.rs scope=top name=skip_leading_zeros_and_convert_to_bigints props=C08,C01
 fn skip_leading_zeros_and_convert_to_bigints(p: &Poly) -> (res: (usize, Vec<BigInt>))
     ensures
@@ -288,12 +250,6 @@ fn convert_to_bigints(p: &[Fr]) -> (res: Vec<BigInt>)
 //@end
 
 // ======================= C01: completeness of KZG10 as a lemma over the contracts above =======================
-// Key material in trapdoor form (this is what KZG10::setup + trim establish, see units/kzg10_setup.rs):
-pub open spec fn srs_ok(powers: &Powers, vk: &VerifierKey, beta: FS) -> bool {
-    geometric(g1views(powers.powers_of_g@), vk.g@, beta, 0)
-    && geometric(g1views(powers.powers_of_gamma_g@), vk.gamma_g@, beta, 0)
-    && vk.beta_h@ == f_mul(vk.h@, beta)
-}
 proof fn lemma_pow0(x: FS, g: FS) ensures f_mul(g, f_pow(x, 0)) == g { broadcast use ring_axioms; }
 
 // (g*(W*(b-z)) + c*(R*(b-z))) * h == (g*W + c*R) * (h*b - h*z)
